@@ -10,7 +10,9 @@ SETUP = ("cd /verif/engines/synlint && CARGO_NET_OFFLINE=true cargo build --rele
 
 NOTE = ("Trusted base: rustc nightly MIR construction / trait resolution / expansion data, syn's parser, the reference tables under "
         "/verif/reference (each entry reviewed by reading), cargo features as the only configuration switches. The check decides the named "
-        "structural clauses for every input that can reach the analysed construct; the remaining behavioural content of the property is not decided.")
+        "structural clauses for every input that can reach the analysed construct; the remaining behavioural content of the property is not decided. "
+        "A rule that cannot find the construct it reasons about (the code is written in a form the rule does not read) prints `UNDECIDED: property=<id> ..`, "
+        "records it under coverage.undecided in the evidence and does not fail the check: a violation needs positive evidence (DESIGN.md 9.9, 9.10).")
 
 CHECKS = {
     "C05": ("DESIGN.md section 3/C05",
